@@ -194,3 +194,27 @@ def twin_scenarios(rich: bool) -> list[dict]:
                         b = caller(2, 0.1, kind, 1, 0, mr, to2, True, [{"echo": 0.01, "reply": 0.05}], outer=outer2)
                         out.append({"mode": mode, "callers": [a, b], "events": []})
     return out
+
+
+def streak_scenarios(rich: bool) -> list[dict]:
+    """Histories: a command whose every transmission goes unanswered (the back-off multiplier climbs to its cap and stays
+    there), one or two of them in a row, followed by commands that lose only their first transmission and by a command
+    that is answered at once: what the streak left behind must not change how later commands are retried."""
+    out = []
+    lost = [{"echo": None, "reply": None}]
+    late = [{"echo": None, "reply": None}, {"echo": 0.01, "reply": 0.05}]
+    late2 = [{"echo": None, "reply": None}, {"echo": None, "reply": None}, {"echo": 0.01, "reply": 0.05}]
+    ok = [{"echo": 0.01, "reply": 0.05}]
+    for mode in ((None, True, False) if rich else (None, False)):
+        for kind in (("RQ", "I", "LOG") if rich else ("RQ", "I")):
+            for n_deaf in (1, 2):
+                for mr2 in ((1, 2, 3) if rich else (1, 3)):
+                    cs, t = [], 0.0
+                    for k in range(n_deaf):
+                        cs.append(caller(len(cs) + 1, t, kind, 1 + k, 0, 3, 20.0, None, lost))
+                        t += 21.0
+                    cs.append(caller(len(cs) + 1, t, kind, 4, 0, mr2, 20.0, None, late))
+                    cs.append(caller(len(cs) + 1, t + 21.0, kind, 5, 0, 3, 20.0, None, late2))
+                    cs.append(caller(len(cs) + 1, t + 42.0, kind, 6, 0, 0, 20.0, None, ok))
+                    out.append({"mode": mode, "callers": cs, "events": []})
+    return out
